@@ -10,12 +10,14 @@ import (
 
 // pkcs7: the algorithm tables of x509/pkcs7.go -> Gen/PKCS7Tables.v
 //
-//   gen_hashForOID        : list (list N * string)            getHashForOID: one entry per  oid.Equal(<var>)  of
-//                                                              each case, in source order, with the Hash it returns
-//   gen_sigAlgByHash      : list (string * list N * string)   getSignatureAlgorithmByHash: (hash case, oid, result)
-//   gen_decryptContentOIDs: list (list N)                     the OIDs encryptedContentInfo.decrypt accepts
-//   gen_oid_<name>        : list N                            every OID variable mentioned above, and the attribute OIDs
-//   gen_EncryptionAlgorithmDESCBC / gen_EncryptionAlgorithmAES128GCM : N
+//	gen_hashForOID        : list (list N * string)            getHashForOID: one entry per  oid.Equal(<var>)  of
+//	                                                           each case, in source order, with the Hash it returns
+//	gen_sigAlgByHash      : list (string * list N * string)   getSignatureAlgorithmByHash: (hash case, oid, result)
+//	gen_decryptContentOIDs: list (list N)                     the OIDs encryptedContentInfo.decrypt accepts
+//	gen_oid_<name>        : list N                            every OID variable mentioned above, and the attribute OIDs
+//	gen_EncryptionAlgorithmDESCBC / gen_EncryptionAlgorithmAES128GCM : N
+//	gen_addSigner_default, gen_addSigner_sm2 : list N * list N   (digestOID, signatureOID) AddSigner starts with / assigns for an
+//	                                                           *sm2.PrivateKey; gen_addSigner_*_hash: the hash of the content (NewSignedData / that branch)
 //
 // A case whose body does not return (an empty case: Go does not fall through) produces NO entry -
 // that is how defect D27 (SM3 OID 1.2.156.10197.1.401.1 unsupported) showed in this table.
@@ -204,6 +206,102 @@ func init() {
 			}
 		}
 
+		// ---- AddSigner: the digest OID, signature OID and content hash it picks by default and for an SM2 key
+		as, ok := p.Funcs["SignedData.AddSigner"]
+		if !ok {
+			return fmt.Errorf("SignedData.AddSigner not found")
+		}
+		pairOf := func(st ast.Stmt) (string, string, bool) {
+			a, ok := st.(*ast.AssignStmt)
+			if !ok || len(a.Lhs) < 2 || len(a.Rhs) < 2 {
+				return "", "", false
+			}
+			l0, ok0 := a.Lhs[0].(*ast.Ident)
+			l1, ok1 := a.Lhs[1].(*ast.Ident)
+			r0, ok2 := a.Rhs[0].(*ast.Ident)
+			r1, ok3 := a.Rhs[1].(*ast.Ident)
+			if !ok0 || !ok1 || !ok2 || !ok3 || l0.Name != "digestOID" || l1.Name != "signatureOID" {
+				return "", "", false
+			}
+			return r0.Name, r1.Name, true
+		}
+		// <X>.New() where X is an identifier or a selector: the name of the hash
+		hashOfNew := func(st ast.Stmt) (string, bool) {
+			a, ok := st.(*ast.AssignStmt)
+			if !ok || len(a.Rhs) != 1 {
+				return "", false
+			}
+			call, ok := a.Rhs[0].(*ast.CallExpr)
+			if !ok {
+				return "", false
+			}
+			sel, ok := call.Fun.(*ast.SelectorExpr)
+			if !ok || sel.Sel.Name != "New" {
+				return "", false
+			}
+			switch x := sel.X.(type) {
+			case *ast.Ident:
+				return x.Name, true
+			case *ast.SelectorExpr:
+				return x.Sel.Name, true
+			}
+			return "", false
+		}
+		var defDig, defSig, sm2Dig, sm2Sig, sm2Hash, defHash string
+		if len(as.Body.List) > 0 {
+			defDig, defSig, _ = pairOf(as.Body.List[0])
+		}
+		for _, st := range as.Body.List {
+			is, ok := st.(*ast.IfStmt)
+			if !ok || is.Init == nil {
+				continue
+			}
+			ia, ok := is.Init.(*ast.AssignStmt)
+			if !ok || len(ia.Rhs) != 1 {
+				continue
+			}
+			ta, ok := ia.Rhs[0].(*ast.TypeAssertExpr)
+			if !ok {
+				continue
+			}
+			star, ok := ta.Type.(*ast.StarExpr)
+			if !ok {
+				continue
+			}
+			se, ok := star.X.(*ast.SelectorExpr)
+			if !ok || se.Sel.Name != "PrivateKey" {
+				continue
+			}
+			if pk, ok := se.X.(*ast.Ident); !ok || pk.Name != "sm2" {
+				continue
+			}
+			for _, b := range is.Body.List {
+				if d, sg, ok := pairOf(b); ok {
+					sm2Dig, sm2Sig = d, sg
+				}
+				if h, ok := hashOfNew(b); ok {
+					sm2Hash = h
+				}
+			}
+		}
+		ns, ok := p.Funcs["NewSignedData"]
+		if !ok {
+			return fmt.Errorf("NewSignedData not found")
+		}
+		for _, st := range ns.Body.List {
+			if h, ok := hashOfNew(st); ok {
+				defHash = h
+			}
+		}
+		if defDig == "" || defSig == "" || sm2Dig == "" || sm2Sig == "" || sm2Hash == "" || defHash == "" {
+			return fmt.Errorf("AddSigner / NewSignedData: algorithm choice not recognised (default %q %q %q, sm2 %q %q %q)", defDig, defSig, defHash, sm2Dig, sm2Sig, sm2Hash)
+		}
+		for _, n := range []string{defDig, defSig, sm2Dig, sm2Sig} {
+			if _, err := oidOf(n); err != nil {
+				return err
+			}
+		}
+
 		v := NewV("PKCS#7 algorithm tables", p, "x509/pkcs7.go", "x509/x509.go")
 		v.Raw("Local Open Scope string_scope.\n")
 		names := make([]string, 0, len(oids))
@@ -239,6 +337,10 @@ func init() {
 			b.WriteString("gen_oid_" + strings.TrimPrefix(n, "oid"))
 		}
 		b.WriteString("].\n")
+		fmt.Fprintf(&b, "Definition gen_addSigner_default : list N * list N := (gen_oid_%s, gen_oid_%s).\n", strings.TrimPrefix(defDig, "oid"), strings.TrimPrefix(defSig, "oid"))
+		fmt.Fprintf(&b, "Definition gen_addSigner_default_hash : string := %q.\n", defHash)
+		fmt.Fprintf(&b, "Definition gen_addSigner_sm2 : list N * list N := (gen_oid_%s, gen_oid_%s).\n", strings.TrimPrefix(sm2Dig, "oid"), strings.TrimPrefix(sm2Sig, "oid"))
+		fmt.Fprintf(&b, "Definition gen_addSigner_sm2_hash : string := %q.\n", sm2Hash)
 		v.Raw(b.String())
 		for _, n := range []string{"EncryptionAlgorithmDESCBC", "EncryptionAlgorithmAES128GCM"} {
 			x, ok := p.Consts[n]
